@@ -58,10 +58,40 @@ func (s *PrefixFS) prefixPath(name string) (string, error) {
 	}
 
 	p := filepath.Join(s.prefix, filepath.Clean(name))
-	if !strings.HasPrefix(p, s.prefix) {
+	if !hasPathPrefix(p, s.prefix) {
 		return "", syscall.EPERM
 	}
 	return p, nil
+}
+
+// hasPathPrefix reports whether the cleaned path p is the cleaned path prefix
+// itself or lies below it. Contrary to strings.HasPrefix the comparison
+// respects path element boundaries (/r/app2 is not below /r/app) and does not
+// accept a remainder that climbs out of a relative prefix again (../x).
+func hasPathPrefix(p, prefix string) bool {
+	if p == prefix {
+		return true
+	}
+	rest := p
+	switch {
+	case prefix == ".":
+		// relative root directory
+		if isAbs(p) {
+			return false
+		}
+	case strings.HasSuffix(prefix, separator):
+		// root directory
+		if !strings.HasPrefix(p, prefix) {
+			return false
+		}
+		rest = p[len(prefix):]
+	default:
+		if !strings.HasPrefix(p, prefix+separator) {
+			return false
+		}
+		rest = p[len(prefix)+len(separator):]
+	}
+	return rest != ".." && !strings.HasPrefix(rest, ".."+separator)
 }
 
 // Create creates a file in the filesystem, returning the file and an
